@@ -198,6 +198,8 @@ def make_pool(rng: PlanRng):
     pool["Bt2"] = sig(rng.uniform(0.05, 30.0, (n_rows, n_rec)))
     pool["Bq0"] = sig(rng.uniform(0.2, 2.5, (n_rows, n_rec)))
     pool["Bq1"] = sig(rng.uniform(0.5, 15.0, (n_rows, n_rec)))
+    # explicit targets with *another* number of rows than anything that gets registered
+    pool["Bq2"] = sig(rng.uniform(0.5, 12.0, (n_rows + rng.integers(1, 3), n_rec)))
     Bz = rng.uniform(0.05, 6.0, (n_rows, n_rec))
     Bz[rng.integers(0, n_rows - 1)] = 0.0     # an all-zero row (legal target, C12)
     pool["Bz"] = sig(Bz)
@@ -216,6 +218,7 @@ class Sym:
         self.has_sys = False
         self.n_src = None
         self.has_tgt = False
+        self.has_W = False      # per-sample weights registered with the targets
 
     def copy(self):
         s = Sym()
@@ -252,6 +255,7 @@ def sym_apply(sym: Sym, op, meta):
         return int(r[1:-1]) == sym.n_src
     if m == "register_targets":
         sym.has_tgt = True
+        sym.has_W = op.get("W") is not None
         return True
     if m == "fit":
         return sym.has_tgt
@@ -406,7 +410,10 @@ def apply_mutator(est, op, pool):
     elif m == "register_targets":
         est.register_targets(pool[op["B"]], W=P(pool, op.get("W")))
     elif m == "fit":
-        est.fit()
+        if op.get("how", "fit") == "mv":
+            est.minimize_variance()
+        else:
+            est.fit()
     else:
         raise KeyError(m)
 
@@ -572,7 +579,7 @@ def cheap_battery(meta):
 
 
 def random_query(rng: PlanRng, meta, solver_ok=True, slow_ok=True):
-    B = rng.choice(["Bq0", "Bq1", "Bt0", "Bt1", "Bin?", "Bin?"])
+    B = rng.choice(["Bq0", "Bq1", "Bq2", "Bt0", "Bt1", "Bin?", "Bin?"])
     kind = meta["kind"]
     cheap = [
         lambda: {"q": "capture", "a": {"signals": "sig"}},
@@ -678,7 +685,8 @@ def random_mutator(rng: PlanRng, sym: Sym, meta, first=False, allow_reject=False
                 "W": rng.choice([None, None, "Wt0", "Wt1"])}
 
     def m_fit():
-        return {"m": "fit"}
+        # fit() or another fitting call on the registered targets (both store X and B)
+        return {"m": "fit", "how": "mv"} if rng.coin(0.3) else {"m": "fit"}
 
     def m_reject():
         # a registration the library rejects (raises): nothing may have been registered
@@ -839,6 +847,12 @@ def generate(rs, mode, tier, index):
             sym = s2
             ops.append(op)
             muts += 1
+            if op["m"] == "fit" and rng.coin(0.5):
+                # fitting the registered targets twice in a row (the second call starts from
+                # what the first one stored)
+                ops.append({"m": "fit", "how": rng.choice(["fit", "mv"])} if op.get("how") == "mv"
+                           or rng.coin(0.5) else {"m": "fit"})
+                muts += 1
             while rng.coin(q_density / (1 + q_density)):
                 q = random_query(rng, meta)
                 past = [o for o in ops if "q" in o]
@@ -883,6 +897,8 @@ def generate(rs, mode, tier, index):
             ]}
     for q in plan["full_battery"]:
         q.pop("fault", None)
+    if rng.coin(0.35):
+        plan["observe"] = [rng.coin(0.3) for _ in sched]
     return plan
 
 
@@ -909,6 +925,7 @@ class ClientState:
         self.nf_info = (0, 0)
         self.alive = True
         self.pending = []      # (normal form at that time, query, answer, n_src): pristine refs
+        self.nf_not = None     # reference object without any target registration / fit
 
 
 def build_nf(cs: ClientState, pool, meta):
@@ -916,6 +933,13 @@ def build_nf(cs: ClientState, pool, meta):
     est = new_estimator(cs.client, pool, bare=True)
     for op in nf:
         apply_mutator(est, op, pool)   # must not raise: the history itself succeeded
+    cs.nf_not = None
+    if cs.sym.has_tgt and not cs.sym.has_W:
+        nf2, _, _ = normal_form([o for o in cs.muts if o["m"] not in ("register_targets", "fit")])
+        e2 = new_estimator(cs.client, pool, bare=True)
+        for op in nf2:
+            apply_mutator(e2, op, pool)
+        cs.nf_not = e2
     return est, dead, swaps, nf
 
 
@@ -1023,6 +1047,24 @@ def execute(plan):
             if ok2 or ok3:
                 bump("ulp_borderline_mismatch_not_confirmed")
                 ok = True
+        explicit_B = q.get("a", {}).get("B") is not None and q["q"] not in ("props",)
+        if ok and faulted_outcome is None and explicit_B and cs.sym.has_tgt and \
+                not cs.sym.has_W and cs.nf_not is not None:
+            # a query with explicit targets reads neither the registered targets nor - when
+            # they were registered without per-sample weights - anything that came with them:
+            # its answer must be that of an estimator on which no targets were ever registered
+            r_not = call(run_query, copy.deepcopy(cs.nf_not), q, qpool, n_src)
+            bump("explicit_target_queries_vs_no_targets_reference")
+            ok_n, _, why_n = compare(r_h, r_not, rt, at)
+            if not ok_n:
+                r_not2 = call(run_query, copy.deepcopy(cs.nf_not), q, qpool, n_src)
+                r_h2 = call(run_query, copy.deepcopy(cs.est), q, qpool, n_src)
+                if not compare(r_h2, r_not2, rt, at)[0]:
+                    raise Violation(ID, "explicit_query_depends_on_registered_targets",
+                                    f"{q['q']}{q.get('a', {})} with explicit targets answers "
+                                    f"differently on an estimator whose registered targets (no "
+                                    f"per-sample weights) were never registered: {why_n}",
+                                    query=q, where=where, client=cs.client["id"])
         if not ok:
             raise Violation(ID, "answer_differs_from_normal_form",
                             f"{q['q']}{q.get('a', {})} after history of {len(cs.muts)} mutators "
@@ -1070,9 +1112,29 @@ def execute(plan):
                 if not sym_apply(s2, op, meta):
                     # only reachable from a hand-edited / minimised plan
                     raise ValueError(f"plan invalid at client {cid} op {cs.pos - 1}: {op}")
+                explicit = None
+                if op["m"] == "fit" and cs.nf_master is not None:
+                    # "If None, the registered B is used": the same fit with the currently
+                    # registered targets passed explicitly, on a copy of the reference object
+                    ro = copy.deepcopy(cs.nf_master)
+                    Bcur = np.array(ro.B, copy=True)
+                    if op.get("how", "fit") == "mv":
+                        explicit = call(lambda: tuple(ro.minimize_variance(Bcur)[:2]))
+                    else:
+                        explicit = call(lambda: tuple(ro.fit(Bcur)))
                 out = call(apply_mutator, cs.est, op, pool)
                 check_pool(f"mutator {op['m']}")
                 log.add(cid, "m:" + op["m"], out)
+                if out.ok and explicit is not None and explicit.ok:
+                    got = Outcome("ok", (np.asarray(cs.est.X), np.asarray(cs.est.B)))
+                    ok_, _, why_ = compare(got, explicit, *TOL_SOLVER)
+                    bump("internal_vs_explicit_fit_checks")
+                    if not ok_:
+                        raise Violation(ID, "internal_fit_differs_from_explicit_fit",
+                                        f"{'minimize_variance()' if op.get('how') == 'mv' else 'fit()'}"
+                                        f" on the registered targets stored another result than "
+                                        f"the same call with those targets passed explicitly: "
+                                        f"{why_}", op=op, client=cid)
                 if not out.ok:
                     if op["m"] == "fit":
                         # a solver failure inside fit(): compare with the normal form, then
@@ -1100,7 +1162,13 @@ def execute(plan):
                                     f"history succeeded but its normal form raised "
                                     f"{type(e).__name__}: {e}", client=cid)
                 cs.nf_info = (dead, swaps)
-                # cheap battery after every mutator
+                # cheap battery after every mutator - except in runs with a sparse observation
+                # schedule, where most steps go unobserved so that anything computed lazily on
+                # first access is not frozen by the observer
+                ob = plan.get("observe")
+                if ob is not None and step < len(ob) and not ob[step]:
+                    bump("steps_not_observed")
+                    continue
                 for q in plan["battery"]:
                     compare_query(cs, q, f"battery after step {step}")
                     bump("battery_probes")
@@ -1338,6 +1406,10 @@ def candidates(plan):
     if plan.get("pristine"):
         p = dict(plan)
         p["pristine"] = False
+        yield p
+    if plan.get("observe") is not None:
+        p = dict(plan)
+        p["observe"] = None
         yield p
     if len(plan.get("battery", [])) > 0:
         b = plan["battery"]
